@@ -164,7 +164,9 @@ FAMILIES = [
     Family('Info12', attrs={'name': STR, 'paths': ANY}),
 ]
 
-CONTRACTS = [_load_module, _load_builtin, _get_module_info, _import_module, _c20._base]
+# the base path is ALSO the whitelist of directories compiled modules may be imported from: whoever composes the effective
+# path must not extend that (memoised) list in place - Project._get_sys_path under its C20 contract, ownership frame
+CONTRACTS = [_load_module, _load_builtin, _get_module_info, _import_module, _c20._base, _c20._get_sys_path]
 
 
 def _find_module_impl(V, st, self_val, args, kwargs, node):
